@@ -1,8 +1,12 @@
 //! vcheck: property-based checks of BLAKE3 (/repo) against an independent spec model.
 #![allow(clippy::too_many_arguments)]
 
+mod cjoin;
+mod cshim;
 mod gen;
 mod hist;
+mod kernels;
+mod levels;
 mod props;
 mod runner;
 mod selftest;
